@@ -2,6 +2,7 @@
 import common as C
 from props._runcommon import RUN_TRUSTED, RUN_ASSUMPTIONS, PropRunStream
 from run import selftest as W
+from run import witnesses2 as W2
 
 PROPERTY = "C07"
 LEAN_MODULES = ["LccModel.Props.C07", "LccModel.Props.C07Run"]
@@ -54,7 +55,7 @@ class Run(PropRunStream):
     quick_cases = 330
     quick_seconds = 50
     p_interrupt = 0.3           # interrupted runs are ordinary cases since fix D11 (SuiteEnd / TestSessionEnd order holds under interrupt)
-    corpus = [witness("D11 "), witness("D1 "), witness("D3 ")]
+    corpus = [witness("D11 "), witness("D1 "), witness("D3 ")] + W2.CONTROLS
 
 
 def streams(ctx):
